@@ -161,10 +161,58 @@ def probe_filters(m1):
     return r
 
 
+def probe_filters_disjoint(m2):
+    """the same lookups on the one-graph-per-store backend, whose container for an id may hold nodes carrying ANOTHER GraphID
+    (a GraphID rewrite leaves the node where it is; a direct import trusts the ids on the nodes): container g1 holds x (its own)
+    and y (GraphID g2), container g3 holds only a node of graph g9.  Lookups filter on GraphID inside the container; the storage
+    methods extract_graph / del_graph take the whole container."""
+    from fim.graph.abc_property_graph import PropertyGraphQueryException
+    imp, st = _disjoint(m2)
+    A, C = nx.Graph(), nx.Graph()
+    A.add_node(1, NodeID="x", Class="Link", Name="nm", Type="t", GraphID="g1")
+    A.add_node(2, NodeID="y", Class="Link", Name="nm2", Type="t", GraphID="g2")
+    C.add_node(1, NodeID="z", Class="Link", Name="nm3", Type="t", GraphID="g9")
+    st.add_graph_direct("g1", A)
+    st.add_graph_direct("g3", C)
+    if sorted(d.get("GraphID") for _, d in st.graphs["g1"].nodes(data=True)) != ["g1", "g2"] or len(st.graphs["g3"].nodes) != 1:
+        raise ExtractionError("direct import on the disjoint store did not keep the GraphIDs of the probe nodes")
+    pg1 = m2.NetworkXPropertyGraphDisjoint(graph_id="g1", importer=imp)
+    pg3 = m2.NetworkXPropertyGraphDisjoint(graph_id="g3", importer=imp)
+    r = {}
+    try:
+        pg1._find_node(node_id="y")
+        r["_find_node"] = False
+    except PropertyGraphQueryException:
+        r["_find_node"] = True
+    r["_find_all_nodes"] = sorted(pg1.list_all_node_ids()) == ["x"]
+    r["node_exists"] = pg1.node_exists(node_id="y", label="Link") is False and pg1.node_exists(node_id="x", label="Link") is True
+    r["get_all_nodes_by_class"] = sorted(pg1.get_all_nodes_by_class(label="Link")) == ["x"]
+    r["get_all_nodes_by_class_and_type"] = sorted(pg1.get_all_nodes_by_class_and_type(label="Link", ntype="t")) == ["x"]
+    r["check_node_unique"] = pg1.check_node_unique(label="Link", name="nm2") is True and pg1.check_node_unique(label="Link", name="nm") is False
+    r["graph_exists"] = pg3.graph_exists() is False and pg1.graph_exists() is True
+    ex = st.extract_graph("g1")
+    r["extract_graph"] = ex is not None and len(ex.nodes) == 1
+    try:
+        pg1.add_node(node_id="y", label="Link")          # the y already in the container belongs to g2
+        ok = sorted(pg1.list_all_node_ids()) == ["x", "y"]
+        try:
+            pg1.add_node(node_id="x", label="NetworkNode")
+            ok = False
+        except PropertyGraphQueryException:
+            pass
+        r["add_node"] = ok
+    except PropertyGraphQueryException:
+        r["add_node"] = False
+    st.del_graph("g1")
+    r["del_graph"] = [d.get("GraphID") for _, d in st.graphs["g1"].nodes(data=True)] == ["g2"]
+    return r
+
+
 def extract():
     m1, m2 = _mods()
     out = {}
-    for name, fn, arg in (("shared", probe_shared, m1), ("disjoint", probe_disjoint, m2), ("filters", probe_filters, m1)):
+    for name, fn, arg in (("shared", probe_shared, m1), ("disjoint", probe_disjoint, m2), ("filters", probe_filters, m1),
+                          ("dfilters", probe_filters_disjoint, m2)):
         try:
             out[name] = fn(arg)
         except ExtractionError:
@@ -176,11 +224,11 @@ def extract():
             m2.NetworkXGraphStorageDisjoint.storage_instance = None
     flags = dict(out["shared"])
     flags.update(out["disjoint"])
-    if sorted(flags) != sorted(FLAGS) or sorted(out["filters"]) != sorted(FILTERED):
+    if sorted(flags) != sorted(FLAGS) or sorted(out["filters"]) != sorted(FILTERED) or sorted(out["dfilters"]) != sorted(FILTERED):
         raise ExtractionError("probe result has unexpected fields")
-    if not all(isinstance(v, bool) for v in list(flags.values()) + list(out["filters"].values())):
+    if not all(isinstance(v, bool) for v in list(flags.values()) + list(out["filters"].values()) + list(out["dfilters"].values())):
         raise ExtractionError("probe result is not boolean")
-    return flags, out["filters"]
+    return flags, out["filters"], out["dfilters"]
 
 
 def lean_bool(b):
@@ -188,15 +236,19 @@ def lean_bool(b):
 
 
 def generate():
-    flags, filt = extract()
+    flags, filt, dfilt = extract()
     body = "/-- observed control flow of the two stores (see gen/storeflow.py): `true` = as Model/Store.lean, Model/DStore.lean assume -/\n"
     body += "structure Flow where\n" + "".join("  %s : Bool\n" % k for k in FLAGS) + "  deriving DecidableEq, Repr\n\n"
     body += "def flow : Flow :=\n  { " + ",\n    ".join("%s := %s" % (k, lean_bool(flags[k])) for k in FLAGS) + " }\n\n"
     body += "/-- lookup methods and whether they restrict themselves to the nodes whose GraphID is the caller's graph id -/\n"
     body += "def gidFiltered : List (String × Bool) := %s\n" % lean_list(
         ["(%s, %s)" % (lean_str(k), lean_bool(filt[k])) for k in FILTERED])
+    body += "\n/-- the same lookups on the one-graph-per-store backend: do they restrict themselves to the nodes whose GraphID is the caller's graph id\n"
+    body += "    when the container of that id also holds nodes carrying another GraphID (after a GraphID rewrite / a direct import) -/\n"
+    body += "def dgidFiltered : List (String × Bool) := %s\n" % lean_list(
+        ["(%s, %s)" % (lean_str(k), lean_bool(dfilt[k])) for k in FILTERED])
     changed = emit("StoreFlow", body)
-    return {"flags": flags, "filters": filt, "changed": changed}
+    return {"flags": flags, "filters": filt, "dfilters": dfilt, "changed": changed}
 
 
 if __name__ == "__main__":
